@@ -57,6 +57,9 @@ pub struct Member {
 pub struct StructDef {
     pub name: String,
     pub members: Vec<Member>,
+    /// snake-case form of the name (filled in by the driver; the vertex entry helpers name their step-mode parameters like this)
+    #[serde(default)]
+    pub snake: String,
 }
 
 #[derive(Deserialize, Serialize, Clone, Debug)]
